@@ -30,6 +30,8 @@ type Call struct {
 	Req    proto.Message
 	Rsp    proto.Message
 	Err    error
+	// Refused: the backend refused the call (Refuse) before doing anything
+	Refused bool
 }
 
 // ReqIDKey is the context key under which a harness tags an HTTP request; the front end hands the
@@ -56,6 +58,17 @@ type Backend struct {
 	Intercept Intercept
 	// OnCall, if set, is invoked (without the lock) at the start of every RPC: scheduler gate for concurrent harnesses.
 	OnCall func(method string)
+	// Gate, if set, is invoked (without the lock) at the start of every RPC with the RPC's context (which carries
+	// the ReqIDKey of the HTTP request it belongs to): it may park the call while other requests are served.
+	Gate func(ctx context.Context, method string)
+	// Refuse, if set, is asked (under the lock) whether the backend refuses this call: a non-nil error is returned
+	// to the front end and the backend does nothing else (no state change).
+	Refuse func(ctx context.Context, method string) error
+	// LoseReply, if set, is asked (under the lock, after the backend has performed the call) whether the reply is
+	// lost: a non-nil error is what the front end gets instead of the reply; the backend's state change stands.
+	LoseReply func(ctx context.Context, method string) error
+	// OnFinish, if set, sees every recorded call (under the lock: in the order the backend served them).
+	OnFinish func(c Call)
 }
 
 // Published is a root the backend has published.
@@ -118,8 +131,12 @@ func (b *Backend) Sequence(k int, nanos uint64, order []int) int {
 	b.rootNanos = nanos
 	b.revision++
 	b.seq++
-	b.Calls = append(b.Calls, Call{Seq: b.seq, Method: "Sequence", Req: &trillian.GetLeavesByRangeRequest{StartIndex: int64(b.rootSize), Count: int64(len(pick))}})
+	c := Call{Seq: b.seq, Method: "Sequence", Req: &trillian.GetLeavesByRangeRequest{StartIndex: int64(b.rootSize), Count: int64(len(pick))}}
+	b.Calls = append(b.Calls, c)
 	b.Roots = append(b.Roots, Published{Size: b.rootSize, Nanos: nanos})
+	if b.OnFinish != nil {
+		b.OnFinish(c)
+	}
 	return len(pick)
 }
 
@@ -190,21 +207,51 @@ func (b *Backend) finish(ctx context.Context, method string, req, rsp proto.Mess
 	if b.Intercept != nil {
 		rsp, err = b.Intercept(seq, method, req, rsp, err)
 	}
+	if b.LoseReply != nil {
+		if e := b.LoseReply(ctx, method); e != nil {
+			rsp, err = nil, e
+		}
+	}
 	id, _ := ctx.Value(ReqIDKey{}).(string)
-	b.Calls = append(b.Calls, Call{Seq: seq, ReqID: id, Method: method, Req: proto.Clone(req), Rsp: rsp, Err: err})
+	c := Call{Seq: seq, ReqID: id, Method: method, Req: proto.Clone(req), Rsp: rsp, Err: err}
+	b.Calls = append(b.Calls, c)
+	if b.OnFinish != nil {
+		b.OnFinish(c)
+	}
 	return rsp, err
 }
 
-func (b *Backend) enter(method string) {
+// enter starts an RPC: scheduler gates, then the lock, then the question whether the backend refuses the call.
+// A non-nil error means the call is over (the lock is released).
+func (b *Backend) enter(ctx context.Context, method string, req proto.Message) error {
 	if b.OnCall != nil {
 		b.OnCall(method)
 	}
+	if b.Gate != nil {
+		b.Gate(ctx, method)
+	}
 	b.mu.Lock()
+	if b.Refuse != nil {
+		if err := b.Refuse(ctx, method); err != nil {
+			b.seq++
+			id, _ := ctx.Value(ReqIDKey{}).(string)
+			c := Call{Seq: b.seq, ReqID: id, Method: method, Req: proto.Clone(req), Err: err, Refused: true}
+			b.Calls = append(b.Calls, c)
+			if b.OnFinish != nil {
+				b.OnFinish(c)
+			}
+			b.mu.Unlock()
+			return err
+		}
+	}
+	return nil
 }
 
 // QueueLeaf stores a leaf unless its identity hash is known; a duplicate is answered with the stored leaf.
 func (b *Backend) QueueLeaf(ctx context.Context, in *trillian.QueueLeafRequest, _ ...grpc.CallOption) (*trillian.QueueLeafResponse, error) {
-	b.enter("QueueLeaf")
+	if err := b.enter(ctx, "QueueLeaf", in); err != nil {
+		return nil, err
+	}
 	defer b.mu.Unlock()
 	var rsp *trillian.QueueLeafResponse
 	var err error
@@ -240,7 +287,9 @@ func (b *Backend) QueueLeaf(ctx context.Context, in *trillian.QueueLeafRequest, 
 
 // GetLatestSignedLogRoot returns the published root.
 func (b *Backend) GetLatestSignedLogRoot(ctx context.Context, in *trillian.GetLatestSignedLogRootRequest, _ ...grpc.CallOption) (*trillian.GetLatestSignedLogRootResponse, error) {
-	b.enter("GetLatestSignedLogRoot")
+	if err := b.enter(ctx, "GetLatestSignedLogRoot", in); err != nil {
+		return nil, err
+	}
 	defer b.mu.Unlock()
 	m, err := b.finish(ctx, "GetLatestSignedLogRoot", in, &trillian.GetLatestSignedLogRootResponse{SignedLogRoot: b.slr()}, nil)
 	if m == nil {
@@ -251,7 +300,9 @@ func (b *Backend) GetLatestSignedLogRoot(ctx context.Context, in *trillian.GetLa
 
 // GetConsistencyProof follows log_rpc_server.go: a second size beyond the tree yields the root only.
 func (b *Backend) GetConsistencyProof(ctx context.Context, in *trillian.GetConsistencyProofRequest, _ ...grpc.CallOption) (*trillian.GetConsistencyProofResponse, error) {
-	b.enter("GetConsistencyProof")
+	if err := b.enter(ctx, "GetConsistencyProof", in); err != nil {
+		return nil, err
+	}
 	defer b.mu.Unlock()
 	var rsp *trillian.GetConsistencyProofResponse
 	var err error
@@ -281,7 +332,9 @@ func (b *Backend) GetConsistencyProof(ctx context.Context, in *trillian.GetConsi
 
 // GetInclusionProofByHash returns proofs for all sequenced leaves with that Merkle leaf hash below the tree size.
 func (b *Backend) GetInclusionProofByHash(ctx context.Context, in *trillian.GetInclusionProofByHashRequest, _ ...grpc.CallOption) (*trillian.GetInclusionProofByHashResponse, error) {
-	b.enter("GetInclusionProofByHash")
+	if err := b.enter(ctx, "GetInclusionProofByHash", in); err != nil {
+		return nil, err
+	}
 	defer b.mu.Unlock()
 	var rsp *trillian.GetInclusionProofByHashResponse
 	var err error
@@ -317,7 +370,9 @@ func (b *Backend) GetInclusionProofByHash(ctx context.Context, in *trillian.GetI
 
 // GetLeavesByRange returns up to count consecutive leaves from start; none beyond the tree.
 func (b *Backend) GetLeavesByRange(ctx context.Context, in *trillian.GetLeavesByRangeRequest, _ ...grpc.CallOption) (*trillian.GetLeavesByRangeResponse, error) {
-	b.enter("GetLeavesByRange")
+	if err := b.enter(ctx, "GetLeavesByRange", in); err != nil {
+		return nil, err
+	}
 	defer b.mu.Unlock()
 	var rsp *trillian.GetLeavesByRangeResponse
 	var err error
@@ -345,7 +400,9 @@ func (b *Backend) GetLeavesByRange(ctx context.Context, in *trillian.GetLeavesBy
 
 // GetEntryAndProof follows log_rpc_server.go, including the clamp of the tree size to the current root.
 func (b *Backend) GetEntryAndProof(ctx context.Context, in *trillian.GetEntryAndProofRequest, _ ...grpc.CallOption) (*trillian.GetEntryAndProofResponse, error) {
-	b.enter("GetEntryAndProof")
+	if err := b.enter(ctx, "GetEntryAndProof", in); err != nil {
+		return nil, err
+	}
 	defer b.mu.Unlock()
 	var rsp *trillian.GetEntryAndProofResponse
 	var err error
